@@ -477,6 +477,67 @@ def allocCstrFmt (asStr : Option Bytes) (pieces : List Bytes) : Res Bytes :=
     | .panic s => .panic s
     | .fault => .fault
 
+/-! ## extend_zeroed, fmt::Write, Extend, shrink_to(_fit), consuming conversions -/
+
+/-- `generic_extend_zeroed(additional)` (bump_string.rs l.1487, fixed_bump_string.rs l.1228,
+    mut_bump_string.rs l.492): `reserve(additional)?; ptr.add(len).write_bytes(0, additional); set_len(len + additional)` -/
+def extendZeroed (a : Alloc) (s : State) (additional : Nat) : Res Unit :=
+  appendBytes a s (List.replicate additional 0)
+
+/-- `fmt::Write::write_str`: `self.try_push_str(s).map_err(|_| fmt::Error)` -/
+def writeStr (a : Alloc) (s : State) (str : Bytes) : Res Unit := pushStr a s str
+
+/-- `fmt::Write::write_char`: `self.try_push(c).map_err(|_| fmt::Error)` -/
+def writeChar (a : Alloc) (s : State) (c : Char) : Res Unit := push a s c
+
+/-- `iterator.for_each(|c| self.push(c))`: stops at the first allocation error (the panicking
+    `push` unwinds); what was pushed before stays -/
+def pushAllChars (a : Alloc) (s : State) : List Char → Res Unit
+  | [] => .ok () s
+  | c :: cs =>
+    match push a s c with
+    | .ok () s' => pushAllChars a s' cs
+    | other => other
+
+/-- `Extend<char>` (and `Extend<&char>`): `self.reserve(size_hint().0); for_each(push)` -/
+def extendChars (a : Alloc) (s : State) (cs : List Char) : Res Unit :=
+  match reserve a s cs.length with
+  | none => .err s
+  | some s1 => pushAllChars a s1 cs
+
+/-- `Extend<&str>` / repeated `+=`: `for str in iter { self.push_str(str) }` -/
+def extendStrs (a : Alloc) (s : State) : List Bytes → Res Unit
+  | [] => .ok () s
+  | p :: ps =>
+    match pushStr a s p with
+    | .ok () s' => extendStrs a s' ps
+    | other => other
+
+/-- `BumpVec::<u8>::shrink_to(min_capacity)` (bump_vec.rs l.2836; `BumpString::shrink_to` delegates):
+    `new_cap = max(len, min_capacity)`; nothing to do when `old_cap <= new_cap`; otherwise
+    `allocator.shrink_slice(ptr, old_cap, new_cap)`: `Some(new_ptr)` — pointer AND capacity are
+    updated (bumping downwards the allocator has moved the bytes) — or `None` (not the newest
+    allocation of its chunk, or shrinking is switched off): nothing changes.  `arenaShrinks` is the
+    arena's answer (an INPUT).  The contents never change. -/
+def shrinkTo (s : State) (minCapacity : Nat) (arenaShrinks : Bool) : Res Unit :=
+  let newCap := max s.len minCapacity
+  if s.buf.length ≤ newCap then .ok () s
+  else if arenaShrinks then .ok () { s with buf := s.buf.take newCap }
+  else .ok () s
+
+/-- `BumpVec::<u8>::shrink_to_fit` (bump_vec.rs l.2793): nothing when `cap <= len`, else `shrink_slice(ptr, cap, len)` -/
+def shrinkToFit (s : State) (arenaShrinks : Bool) : Res Unit :=
+  if s.buf.length ≤ s.len then .ok () s
+  else if arenaShrinks then .ok () { s with buf := s.buf.take s.len }
+  else .ok () s
+
+/-- `into_str` / `into_boxed_str` (`shrink_to_fit` first) / `into_fixed_string` / `into_bytes` /
+    `FixedBumpString::into_string`: the same bytes under another type -/
+def intoBytes (s : State) (arenaShrinks : Bool) : Bytes :=
+  match shrinkToFit s arenaShrinks with
+  | .ok () s' => s'.bytes
+  | _ => s.bytes
+
 /-! ## checked constructors -/
 
 /-- `BumpBox<str>::from_utf8` (bump_box.rs l.~521; `FixedBumpString::from_utf8`,
